@@ -94,6 +94,7 @@ def yielding_storage(nameserver):
 
 
 RUNS = [0]
+BIGSTEPS = [0]      # how many steps the held-back thread of the last run took
 SLOW = [False]      # this run's storage is slow, and a communication timeout shorter than its accesses is configured
 
 
@@ -193,7 +194,8 @@ def run_once(nameserver, errors, chooser, scen, tfilter, dbdir=None):
         log.append({"e": "call", "th": 4, "o": o})
         log.append({"e": "ret", "th": 4, "r": c14.apply_op(ns, o, errors)})
         log.append({"e": "end", "list": c14.listing(ns)})
-    res, sc = memnet.run(main, chooser=chooser, trace_filter=tfilter, max_steps=20000)
+    res, sc = memnet.run(main, chooser=chooser, trace_filter=tfilter, max_steps=200000 if len(scen["init"]) > 10 else 20000)
+    BIGSTEPS[0] = getattr(chooser, "n", 0)
     from Pyro5 import config as _config
     import time as _time
     _config.COMMTIMEOUT = 0.0
@@ -271,6 +273,24 @@ def run(ctx):
             key = "cl" + json.dumps(tr, sort_keys=True)
             if key not in traces:
                 traces[key] = (tr, {"scenario": scen, "schedule": list(ch.names), "backend": "memory+cleaner"})
+    # a listing that matches several hundred names, while another client removes the name that comes first and then the one that
+    # comes last: the reader is held back after k of its steps (every line, every storage access) for k spread over its whole run,
+    # the writer then runs to the end, the reader resumes - whatever the listing shows must be the state at one moment
+    from .. import daemonlab as L
+    digits = (1, 3, 5, 6)
+    big = [[1] + [digits[(i // 4 ** j) % 4] for j in range(5)] for i in range(300)]
+    scen_big = {"init": big, "chain": True,
+                "ops": [{"op": "list", "sel": "prefix", "arg": [1], "kind": "none", "meta": False},
+                        {"op": "remove", "sel": "name", "arg": big[0], "kind": "none", "meta": False},
+                        {"op": "remove", "sel": "name", "arg": big[-1], "kind": "none", "meta": False}]}
+    probe = run_once(nameserver, errors, L._DelayThread("t1", 10 ** 9), scen_big, tfilter)
+    nsteps = BIGSTEPS[0]
+    for k in range(3, max(nsteps, 4), max(1, nsteps // ctx.pick(48, 400))):
+        tr = run_once(nameserver, errors, L._DelayThread("t1", k), scen_big, tfilter)
+        runs += 1
+        key = "big" + json.dumps([e for e in tr if e["e"] in ("call", "ret")], sort_keys=True)
+        if key not in traces:
+            traces[key] = (tr, {"scenario": {"init": "300 names", "ops": scen_big["ops"], "chain": True}, "schedule": ["t1 held back after %d steps" % k], "backend": "memory+large"})
     if True:
         # the sqlite storage reads and writes an entry in several statements: every pair of operations (quick: the pairs with a reader
         # next to a writer, sampled)
